@@ -510,6 +510,21 @@ fn misc_fns(n: usize) -> Result<(), String> {
         (a, b)
     };
     ensure!(a == format!("d{n}") && b == vec![n as u8], "destructure! tuple");
+    {
+        // packed structs: every field read must be an unaligned read (Miri checks alignment)
+        #[repr(C, packed)]
+        struct P(u8, u32, u8, u64, String);
+        konst::destructure! {P(a, b, c, d, e) = P(1, n as u32, 3, 4, format!("p{n}"))}
+        ensure!((a, b, c, d) == (1, n as u32, 3, 4) && e == format!("p{n}"), "destructure! packed tuple struct");
+        #[repr(C, packed)]
+        struct Q {
+            x: u8,
+            y: u128,
+            z: Vec<u8>,
+        }
+        konst::destructure! {Q{x, y, z} = Q{x: 9, y: 1 << 100, z: vec![n as u8]}}
+        ensure!(x == 9 && y == 1 << 100 && z == vec![n as u8], "destructure! packed braced struct");
+    }
     konst::destructure! {[h, rest @ .., t] = [format!("0"), format!("1"), format!("2"), format!("3")]}
     ensure!(h == "0" && rest == [format!("1"), format!("2")] && t == "3", "destructure! array");
     Ok(())
@@ -581,7 +596,7 @@ fn explore(ctx: &mut Ctx, miri: bool) {
         }
     }
     ctx.exhaustive_part("byte-pattern functions: all byte strings over {a,b,0xC3,0xA9,' ',0xFF} (len <= 4-5) x patterns (len <= 2), every applicable pattern kind");
-    let text: &[&str] = if miri { &["a", "é", "😀"] } else { &["a", "é", "漢", "😀", " ", ","] };
+    let text: &[&str] = if miri { &["a", "é", "\u{800}", "😀"] } else { &["a", "é", "漢", "\u{800}", "😀", " ", ","] };
     let strs = gen::strings(text, if miri { 3 } else { ctx.by_tier(4, 5) });
     let spats = gen::strings(text, if miri { 1 } else { 2 });
     for (i, s) in strs.iter().enumerate() {
@@ -631,7 +646,7 @@ fn explore(ctx: &mut Ctx, miri: bool) {
     }
     let n = ctx.by_tier(40_000, 1_000_000);
     let strat = (
-        proptest::collection::vec(prop_oneof![Just('a'), Just('é'), Just('漢'), Just('😀'), Just(','), Just(' '), any::<char>()], 0..16),
+        proptest::collection::vec(prop_oneof![Just('a'), Just('é'), Just('漢'), Just('😀'), Just(','), Just(' '), Just('\u{800}'), Just('\u{fff}'), Just('\u{7ff}'), Just('\u{ffff}'), Just('\u{10000}'), any::<char>()], 0..16),
         proptest::collection::vec(prop_oneof![Just('a'), Just('é'), Just(','), any::<char>()], 0..3),
         (0u8..3, any::<usize>()),
         (0u8..3, any::<usize>()),
